@@ -41,6 +41,9 @@ StateTags(ev, cs) ==
        \cup Tag(\A i \in 1..Len(ev.cells) : ev.cells[i].tvol_ge_min, "C04_TargetVolumeClamped")
        \cup Tag(\A i \in 1..Len(ev.cells) : ev.cells[i].ready => ev.cells[i].type = 0, "C04_OnlyEpithelialDivide")
        \cup Tag(ev.time_ok, "C19_TimeAdvancesByDt")
+       \* eligibility and removal are decided by the two thresholds, equality included: "has reached" is >=, "falls below" is <
+       \cup Tag(\A i \in 1..Len(ev.cells) : ev.cells[i].ready <=> (ev.cells[i].type = 0 /\ ev.cells[i].reached), "C04_EligibleIffReached")
+       \cup Tag(\A i \in 1..Len(ev.cells) : ev.cells[i].below <=> ev.cells[i].under, "C04_BelowIffUnder")
        \* "... until T is reached": no iteration starts (event 0) once the simulated time has reached the duration
        \cup Tag(ev.before_T, "C19_StopsWhenTReached")
        \* design drift, not a verdict (the factor three between the two thresholds is the solver's choice, no documentation states
@@ -135,6 +138,8 @@ ReportAll == tags = {} \/ PrintT(<<"TAGS", l, tags>>)
 NoTag(t) == t \notin tags
 I_C19_FileContentIsAliveCells == NoTag("C19_FileContentIsAliveCells")
 I_C19_StopsWhenTReached == NoTag("C19_StopsWhenTReached")
+I_C04_EligibleIffReached == NoTag("C04_EligibleIffReached")
+I_C04_BelowIffUnder == NoTag("C04_BelowIffUnder")
 I_D_UpperThresholdIsThreeLmin == NoTag("D_UpperThresholdIsThreeLmin")
 I_C08_LidIsIndex == NoTag("C08_LidIsIndex")
 I_C08_IdsUnique == NoTag("C08_IdsUnique")
